@@ -21,7 +21,7 @@ RULE = (
 )
 REQUIRED = ["toml.equal_params", "toml.equal_limits", "toml.equal_solve", "toml.missing_mandatory_keyerror",
             "toml.wrong_type_valueerror", "toml.loads"]
-SIZES = {"quick": 600, "thorough": 4000}
+SIZES = {"quick": 1500, "thorough": 8000}
 ASSUMPTIONS = ["the toml package of the environment (0.10.2) rejects mixed int/float arrays: arrays are written homogeneously",
                "Rectifier.vdrop is mandatory in the file schema but optional in the constructor: it is always written"]
 
@@ -89,7 +89,9 @@ def gen(rng, i, tier):
             keys = sorted(set(list(a) + MANDATORY[kind]))
             key = c11.cyc("c13key" + kind, keys)
             # (False == 0 == 0.0 in Python: wrong-typed values that compare equal to a default must be rejected too)
-            bads = ["text", True, [1.0, 2.0], {"a": 1.0}, 7, False, 0, 0.0, "", 1]
+            # numeric-looking strings and TOML dates are wrong-typed too (float() would swallow the former)
+            bads = ["text", "2.5", True, [1.0, 2.0], {"a": 1.0}, 7, False, "1e-3", 0, 0.0, "", 1, {"__date__": "2024-02-29"},
+                    "0", [], "nan", {"__datetime__": "2024-02-29T12:00:00"}, "inf", [[1.0]], "-1"]
             case["bad_key"] = key
             case["bad_value"] = c11.cyc("c13bad" + kind + key, bads)
     return case
@@ -99,9 +101,22 @@ def c11_limit_keys():
     return ["vi", "vo", "vd", "ii", "io", "pi", "po", "pl", "tr", "tp"]
 
 
+def _detag(v):
+    """JSON-able case value -> the TOML value it stands for (dates are not JSON)."""
+    import datetime
+
+    if isinstance(v, dict) and "__date__" in v:
+        return datetime.date.fromisoformat(v["__date__"])
+    if isinstance(v, dict) and "__datetime__" in v:
+        return datetime.datetime.fromisoformat(v["__datetime__"])
+    return v
+
+
 def admits(kind, key, value):
     """Does the documented constructor signature admit this type for this key?"""
     t = type(value)
+    if isinstance(value, dict) and ("__date__" in value or "__datetime__" in value):
+        return False
     if key == "loss":
         return t is bool
     if key in ("eff",):
@@ -142,10 +157,13 @@ def run(ctx, case):
             if kind == "LinReg" or (case["bad_key"] == "vdrop" and kind == "LinReg"):
                 pass
         doc[SECTION[kind]][case["bad_key"]] = case["bad_value"]
+    tdoc = copy.deepcopy(doc)  # what is written: tagged dates become TOML dates
+    if case["mode"] == "wrong_type":
+        tdoc[SECTION[kind]][case["bad_key"]] = _detag(case["bad_value"])
     with H.tmpdir() as d:
         fn = os.path.join(d, "c.toml")
         with open(fn, "w") as f:
-            f.write(toml.dumps(doc))
+            f.write(toml.dumps(tdoc))
         st, comp = H.call(cls.from_file, "X", fname=fn)
         det = {"kind": kind, "file": doc, "mode": mode}
         if mode == "missing":
